@@ -68,7 +68,7 @@ pub fn main(args: &Args) -> i32 {
             t.line(&Obj::new().str("ev", "construct").raw("isas", &counters_json(verif::take_isa_counts())).done());
             // primitives of the constructed engine (operation ids carry the round: data differs per round, not per mask)
             let s = seed + round as u64 * 977;
-            for (size, trunc) in [(16usize, 16usize), (64, 37), (8, 3)] {
+            for (size, trunc) in [(16usize, 16usize), (64, 37), (8, 3), (32, 5), (128, 100), (2, 1)] {
                 call_event(&mut t, &format!("fft{size}/{round}"), &["fft"], || {
                     let mut d = data(s, size as u64, size * 2);
                     let mut sh = ShardsRefMut::new(size, 2, &mut d);
@@ -82,6 +82,16 @@ pub fn main(args: &Args) -> i32 {
                     }
                     let mut sh = ShardsRefMut::new(size, 2, &mut d);
                     eng.ifft(&mut sh, 0, size, trunc, 0);
+                    flat(&d)
+                });
+                call_event(&mut t, &format!("ifftd{size}/{round}"), &["ifft"], || {
+                    // non-zero skew offset: the multiplying branches of the last layers
+                    let mut d = data(s, 200 + size as u64, size * 2);
+                    for b in d[trunc * 2..].iter_mut() {
+                        *b = [0u8; 64];
+                    }
+                    let mut sh = ShardsRefMut::new(size, 2, &mut d);
+                    eng.ifft(&mut sh, 0, size, trunc, size);
                     flat(&d)
                 });
             }
@@ -100,7 +110,7 @@ pub fn main(args: &Args) -> i32 {
                 er.iter().flat_map(|x| x.to_le_bytes()).collect()
             });
             // whole rounds, both rates, three API layers
-            for (k, r, sb) in [(5usize, 3usize, 64usize), (3, 5, 66)] {
+            for (k, r, sb) in [(5usize, 3usize, 64usize), (3, 5, 66), (9, 8, 64), (47, 17, 66), (20, 70, 2), (130, 30, 130)] {
                 let orig: Vec<Vec<u8>> = (0..k).map(|i| util::payload(s, 0xD15, i as u64, sb)).collect();
                 let mut rec_keep: Vec<Vec<u8>> = Vec::new();
                 call_event(&mut t, &format!("enc_default_{k}_{r}/{round}"), &["fft", "ifft"], || {
